@@ -86,6 +86,8 @@ theorem uploadRun_spec (P : Peer σ) (tid page address : Nat) (ht : tid < 256) (
       base + pend.length + rest.length < 65536 →
       ∃ chunks : List (List UInt8), chunks.flatten = pend ++ rest ∧ chunks ≠ [] ∧
         (∀ c ∈ chunks, c.length ≤ Gen.C12.uploadFlushAt + 1) ∧
+        (∀ c ∈ chunks.dropLast, c.length = Gen.C12.uploadFlushAt + 1) ∧
+        (∀ c ∈ chunks.getLast?, c.length ≤ Gen.C12.uploadFlushAt) ∧
         uploadRun P tid page address rest i pend.length
           ([UInt8.ofNat tid, 0x14] ++ leBytes 2 page ++ leBytes 2 base ++ pend) L =
           (sendAll P L (loadPkts tid page base chunks), .ok ()) := by
@@ -93,7 +95,7 @@ theorem uploadRun_spec (P : Peer σ) (tid page address : Nat) (ht : tid < 256) (
   induction rest with
   | nil =>
     intro pend i base L _ hpl _
-    refine ⟨[pend], by simp, by simp, ?_, ?_⟩
+    refine ⟨[pend], by simp, by simp, ?_, by simp, by simpa using hpl, ?_⟩
     · intro c hc; simp at hc; subst hc; omega
     · simp [uploadRun, uploadLoop, loadPkts, sendAll, loadPkt, bootHdr_eq]
   | cons b rest ih =>
@@ -101,15 +103,23 @@ theorem uploadRun_spec (P : Peer σ) (tid page address : Nat) (ht : tid < 256) (
     simp only [List.length_cons] at hfit
     by_cases hc : pend.length + 1 > Gen.C12.uploadFlushAt
     · -- the packet is full: transmit it, start the next one at base + pend.length + 1
-      obtain ⟨chunks, hfl, hne, hlen, hrun⟩ := ih [] (i + 1) (base + (pend ++ [b]).length)
+      obtain ⟨chunks, hfl, hne, hlen, hinit, hlast, hrun⟩ := ih [] (i + 1) (base + (pend ++ [b]).length)
         (L.send P ⟨bootHdr, [UInt8.ofNat tid, 0x14] ++ leBytes 2 page ++ leBytes 2 base ++ (pend ++ [b])⟩)
         (by simp; omega) (by simp) (by simp; omega)
-      refine ⟨(pend ++ [b]) :: chunks, by simp [hfl], by simp, ?_, ?_⟩
+      refine ⟨(pend ++ [b]) :: chunks, by simp [hfl], by simp, ?_, ?_, ?_, ?_⟩
       · intro c hc'
         simp only [List.mem_cons] at hc'
         rcases hc' with rfl | hc'
         · simp; omega
         · exact hlen c hc'
+      · intro c hc'
+        rw [List.dropLast_cons_of_ne_nil hne, List.mem_cons] at hc'
+        rcases hc' with rfl | hc'
+        · simp; omega
+        · exact hinit c hc'
+      · intro c hc'
+        rw [List.getLast?_cons_of_ne_nil hne] at hc'
+        exact hlast c hc'
       · have hld : loadData (tid : Int) Gen.C12.uploadCmd1 page (Gen.C12.uploadNextAddr i address) =
             .ok ([UInt8.ofNat tid, 0x14] ++ leBytes 2 page ++ leBytes 2 (base + (pend ++ [b]).length)) := by
           rw [gen_uploadCmd.2, gen_uploadNextAddr]
@@ -125,9 +135,9 @@ theorem uploadRun_spec (P : Peer σ) (tid page address : Nat) (ht : tid < 256) (
         rw [hrun]
         simp [loadPkt, bootHdr_eq]
     · have hc' : ¬ (pend.length + 1 > Gen.C12.uploadFlushAt) := hc
-      obtain ⟨chunks, hfl, hne, hlen, hrun⟩ := ih (pend ++ [b]) (i + 1) base L
+      obtain ⟨chunks, hfl, hne, hlen, hinit, hlast, hrun⟩ := ih (pend ++ [b]) (i + 1) base L
         (by simp; omega) (by simp; omega) (by simp; omega)
-      refine ⟨chunks, by simp [hfl], hne, hlen, ?_⟩
+      refine ⟨chunks, by simp [hfl], hne, hlen, hinit, hlast, ?_⟩
       unfold uploadRun at hrun ⊢
       unfold uploadLoop
       simp only [gen_uploadFull, hc', decide_false, Bool.false_eq_true, if_false]
@@ -140,10 +150,12 @@ theorem uploadBuffer_spec (P : Peer σ) (L : Link σ) (tid page address : Nat) (
     (ht : tid < 256) (hp : page < 65536) (hfit : address + buff.length < 65536) :
     ∃ chunks : List (List UInt8), chunks.flatten = buff ∧ chunks ≠ [] ∧
       (∀ c ∈ chunks, c.length ≤ Gen.C12.uploadFlushAt + 1) ∧
+      (∀ c ∈ chunks.dropLast, c.length = Gen.C12.uploadFlushAt + 1) ∧
+      (∀ c ∈ chunks.getLast?, c.length ≤ Gen.C12.uploadFlushAt) ∧
       uploadBuffer P L tid page address buff = (sendAll P L (loadPkts tid page address chunks), .ok ()) := by
-  obtain ⟨chunks, hfl, hne, hlen, hrun⟩ := uploadRun_spec P tid page address ht hp buff [] 0 address L
+  obtain ⟨chunks, hfl, hne, hlen, hinit, hlast, hrun⟩ := uploadRun_spec P tid page address ht hp buff [] 0 address L
     (by simp) (by simp) (by simpa using hfit)
-  refine ⟨chunks, by simpa using hfl, hne, hlen, ?_⟩
+  refine ⟨chunks, by simpa using hfl, hne, hlen, hinit, hlast, ?_⟩
   unfold uploadRun at hrun
   unfold uploadBuffer
   rw [gen_uploadCmd.1, loadData_ok tid page address ht hp (by omega)]
